@@ -657,6 +657,14 @@ E: FrozenSet = frozenset()
 IMM = ("imm",)
 IMM_TAGS = {"str", "int", "bool", "float", "none", "callable", "class", "module", "bytes", "ext-imm"}
 SHARED_KINDS = {"global", "class", "default", "unknown", "module", "clsobj", "lamarg"}
+# standard-library calls that change interpreter-wide / process-wide state (a write to shared state like any other)
+PROCESS_GLOBAL_MUTATORS = {
+    "sys.setrecursionlimit", "sys.settrace", "sys.setprofile", "sys.setswitchinterval", "sys.set_int_max_str_digits",
+    "os.chdir", "os.putenv", "os.unsetenv", "os.umask", "locale.setlocale", "random.seed", "warnings.simplefilter",
+    "warnings.filterwarnings", "warnings.resetwarnings", "signal.signal", "gc.disable", "gc.enable", "gc.set_threshold",
+    "threading.setprofile", "threading.settrace", "decimal.setcontext", "re.purge", "faulthandler.enable", "atexit.register",
+    "logging.basicConfig", "logging.disable", "socket.setdefaulttimeout", "tracemalloc.start",
+}
 
 
 def is_fresh(r) -> bool:
@@ -1959,6 +1967,10 @@ class Effects(Flow):
 
     def ext_call(self, st, desc, base, pos, kw, node, star) -> Val:
         self.note_call(node, CallTarget("ext", desc=desc))
+        tail = desc.split(".")[-2:] if "." in desc else [desc]
+        if ".".join(tail) in PROCESS_GLOBAL_MUTATORS:
+            # interpreter- or process-wide settings: state shared by every instance and every thread
+            self.record(f"global:<process>.{'.'.join(tail)}", node, "direct", False)
         if desc.endswith("typing.cast") or desc == "typing.cast":
             return pos[1][0] if len(pos) > 1 else v_unknown("cast")
         args = [v for v, _ in pos] + [v for v, _ in kw.values()] + star
